@@ -18,7 +18,7 @@ import (
 
 type c10Live struct {
 	Monitor   bool       `json:"monitor"`
-	Fault     string     `json:"fault"` // timeouts read-syscall read-perm read-other write-syscall write-other link
+	Fault     string     `json:"fault"` // timeouts timeouts-spread read-syscall read-perm read-other write-syscall write-other link
 	N         int        `json:"n"`     // number of timeouts / index of the failing scheduled write
 	FaultNS   int64      `json:"fault_ns"`
 	Pre       []advEvent `json:"pre"`  // traffic before and after the fault
@@ -35,6 +35,8 @@ func (c c10Live) expectation() string {
 			return "fatal"
 		}
 		return "none"
+	case "timeouts-spread":
+		return "none" // never 5 in a row: every receive that times out fewer than 5 times is fine
 	case "read-syscall", "write-syscall", "link":
 		return "redial"
 	}
@@ -50,6 +52,15 @@ func c10LiveProp(t *testing.T, k *verifkit.Kit) func(c c10Live) error {
 		switch c.Fault {
 		case "timeouts":
 			events = append(events, advEvent{AtNS: c.FaultNS, Kind: "readerr", Err: "timeout", N: c.N})
+		case "timeouts-spread":
+			// c.N groups of 1..4 timeouts, each group followed by a valid solicitation (so no single
+			// receive sees 5 timeouts, but the connection sees many more in total)
+			at := c.FaultNS
+			for g := 0; g < c.N; g++ {
+				events = append(events, advEvent{AtNS: at, Kind: "readerr", Err: "timeout", N: 1 + (g+c.N)%4})
+				events = append(events, advEvent{AtNS: at + int64(time.Second), Kind: "rs", From: "fe80::77"})
+				at += int64(2 * time.Second)
+			}
 		case "read-syscall":
 			events = append(events, advEvent{AtNS: c.FaultNS, Kind: "readerr", Err: "syscall"})
 		case "read-perm":
@@ -129,7 +140,7 @@ func c10LiveProp(t *testing.T, k *verifkit.Kit) func(c c10Live) error {
 				return verifkit.Violf("C10/timeouts-below-budget-disrupt", "%d receive timeouts (< 5) led to a re-dial\n%s", c.N, tl)
 			}
 			if returned && (c.StopNS == 0 || retAt < stopAt) {
-				return verifkit.Violf("C10/timeouts-below-budget-disrupt", "%d receive timeouts (< 5) ended the task: %v\n%s", c.N, retErr, tl)
+				return verifkit.Violf("C10/timeouts-below-budget-disrupt", "receive timeouts (never 5 in a row) ended the task: %v\n%s", retErr, tl)
 			}
 		case "redial":
 			if lastUse > fault+bound {
@@ -184,9 +195,9 @@ func c10LiveProp(t *testing.T, k *verifkit.Kit) func(c c10Live) error {
 func c10GenLive(t *rapid.T) c10Live {
 	s := int64(time.Second)
 	c := c10Live{Monitor: rapid.IntRange(0, 2).Draw(t, "monitor") == 0}
-	faults := []string{"timeouts", "timeouts", "read-syscall", "read-perm", "read-other", "link", "write-syscall", "write-other"}
+	faults := []string{"timeouts", "timeouts", "timeouts-spread", "read-syscall", "read-perm", "read-other", "link", "write-syscall", "write-other"}
 	if c.Monitor {
-		faults = faults[:6]
+		faults = faults[:7]
 	}
 	c.Fault = rapid.SampledFrom(faults).Draw(t, "fault")
 	c.N = rapid.SampledFrom([]int{1, 2, 4, 5, 6, 9}).Draw(t, "n")
@@ -208,7 +219,10 @@ func c10GenLive(t *rapid.T) c10Live {
 	for i, n := 0, rapid.IntRange(0, 4).Draw(t, "ndialfail"); i < n; i++ {
 		c.DialFail = append(c.DialFail, rapid.SampledFrom([]string{"notready", "syscall", "notready"}).Draw(t, "dialfail"))
 	}
-	if rapid.IntRange(0, 3).Draw(t, "stop") != 0 {
+	if c.Fault == "timeouts-spread" {
+		c.N = rapid.IntRange(2, 8).Draw(t, "groups")
+		c.StopNS = c.FaultNS + int64(c.N+2)*int64(2*time.Second)
+	} else if rapid.IntRange(0, 3).Draw(t, "stop") != 0 {
 		c.StopNS = c.FaultNS + rapid.SampledFrom([]int64{1, 100 * int64(time.Millisecond), s, 5 * s, 20 * s}).Draw(t, "stoprel")
 	}
 	c.LatNS = rapid.SampledFrom([]int64{0, 0, int64(time.Millisecond), 200 * int64(time.Millisecond)}).Draw(t, "lat")
@@ -220,7 +234,7 @@ func c10GenLive(t *rapid.T) c10Live {
 func c10Matrix(yield func(c10Live) bool) {
 	s := int64(time.Second)
 	for _, mon := range []bool{false, true} {
-		for _, f := range []string{"timeouts", "read-syscall", "read-perm", "read-other", "link", "write-syscall", "write-other"} {
+		for _, f := range []string{"timeouts", "timeouts-spread", "read-syscall", "read-perm", "read-other", "link", "write-syscall", "write-other"} {
 			if mon && strings.HasPrefix(f, "write-") {
 				continue
 			}
@@ -228,10 +242,16 @@ func c10Matrix(yield func(c10Live) bool) {
 			if f == "timeouts" {
 				ns = []int{1, 4, 5, 6, 20}
 			}
+			if f == "timeouts-spread" {
+				ns = []int{2, 3, 6}
+			}
 			for _, n := range ns {
 				for _, busy := range []bool{false, true} {
 					for _, stop := range []int64{0, 30 * s} {
 						c := c10Live{Monitor: mon, Fault: f, N: n, FaultNS: 5 * s, StopNS: stop}
+						if f == "timeouts-spread" {
+							c.StopNS = 5*s + int64(n+2)*2*s
+						}
 						if busy || strings.HasPrefix(f, "write-") {
 							c.Pre = []advEvent{{AtNS: 5*s - 100*int64(time.Millisecond), Kind: "rs", From: "fe80::a", N: 30}, {AtNS: 5 * s, Kind: "rs", From: "::", N: 2}}
 						}
